@@ -126,7 +126,7 @@ namespace plan
       g_rel(r, op, K);
     }
     else if (name == "tp")
-      op.a = {0};
+      op.a = {static_cast<long>(r.below(16))};
     else if (name == "tprel")
       op.a = {static_cast<long>(r.below(5)), static_cast<long>(r.below(5)), static_cast<long>(r.below(5)), static_cast<long>(r.below(36)), static_cast<long>(r.below(3)), static_cast<long>(r.below(8))};
     else if (name == "tpdisj")
